@@ -15,6 +15,7 @@
     `rveq` and `veq ∘ reify` disagree.
 -/
 import CklVerif.Lemmas.C06EvalNode
+import CklVerif.Lemmas.C06EvalFuel
 import CklVerif.Proofs.C06
 namespace Ckl.C06Eval
 open Ckl Ckl.C06E
@@ -44,14 +45,27 @@ theorem rrender_bridge_nonlist {s : State} {v : RVal} {va : Val} (hv : reify s v
     (hl : ∀ a xs, v = .ref a → s.heap[a]? ≠ some (.list xs)) : rrender s v = some (render va) :=
   rrender_eq_render_nonlist hv hl
 
-/-- rendering, all values.  Full statement wanted: `reify s v = some va → rrender s v = some
-    (render va)`.  `_partial`: the hypothesis asks for reification with fuel `heap.size` instead of
-    `heap.size + 1`.  Missing: the pigeonhole argument that an acyclic chain of cells has at most
-    `heap.size` links (so that reification never needs the last unit of fuel); `rrenderF` spends one
-    unit more than `reifyF` on a scalar inside a list. -/
+/-- **the fuel lemma**: a value that reifies at all (with any fuel) reifies with fuel `heap.size`;
+    `reify` (fuel `heap.size + 1`) never needs its last unit.  (Pigeonhole on the growing sets
+    `{a | reifyF n (ref a) ≠ none} ⊆ {0, …, heap.size - 1}`.) -/
+theorem reify_fuel_size {s : State} {n : Nat} {v : RVal} {w : Val}
+    (hv : reifyF decRepr s.heap n v = some w) : reifyF decRepr s.heap s.heap.size v = some w :=
+  reifyF_fuel_size decRepr s.heap hv
+
+/-- from `heap.size` on, reification does not depend on the fuel at all (also for failures) -/
+theorem reify_fuel_indep (s : State) {n m : Nat} (hn : s.heap.size ≤ n) (hm : s.heap.size ≤ m)
+    (v : RVal) : reifyF decRepr s.heap n v = reifyF decRepr s.heap m v :=
+  reifyF_fuel_indep decRepr s.heap hn hm v
+
+/-- rendering, all values, at full strength (was `rrender_bridge_partial`; the fuel lemma removes
+    the extra unit of fuel `rrenderF` spends on a scalar inside a list) -/
+theorem rrender_bridge {s : State} {v : RVal} {va : Val} (hv : reify s v = some va) :
+    rrender s v = some (render va) := rrender_eq_render_full hv
+
+/-- old name, old (weaker) statement; kept as an alias -/
 theorem rrender_bridge_partial {s : State} {v : RVal} {va : Val}
     (hv : reifyF decRepr s.heap s.heap.size v = some va) : rrender s v = some (render va) :=
-  rrender_eq_render hv
+  rrender_bridge (reifyF_mono decRepr s.heap _ v va hv)
 
 /-- membership -/
 theorem memR_bridge {s : State} (wf : HeapOK s) {x : RVal} {vx : Val} (hx : reify s x = some vx)
@@ -218,6 +232,85 @@ theorem append_set_distinct {s : State} (wf : HeapOK s) {x : RVal} {vx : Val}
     (hd : A.Pairwise (fun a b => veq a b = false)) :
     ∃ B, (setAdd s x xs).mapM (reify s) = some B ∧ B.Pairwise (fun a b => veq a b = false) :=
   ⟨_, setAdd_bridge wf hx hA hd, dedup_pairwise' _⟩
+
+/-! ### `HeapOK` is an invariant of allocation
+
+  `HeapClosed s` (`Lemmas/C06EvalFuel.lean`): no list / set / map cell holds a reference `≥ heap.size`.
+  It is needed: on `#[set [ref 1, ref 1]]` (a dangling reference; `HeapOK` holds vacuously because the
+  elements do not reify) allocating the list cell `[]` makes the two elements reify to equal values
+  (witness `sDang` in §8). -/
+
+/-- **`alloc` keeps `HeapOK`** when the new cell is well formed in the old state -/
+theorem heapOK_alloc {s : State} (wf : HeapOK s) (cl : HeapClosed s) {c : Cell}
+    (hc : CellClosed s.heap.size c) (ok : CellOK (reify s) c) :
+    HeapOK (s.alloc c).1 ∧ HeapClosed (s.alloc c).1 :=
+  ⟨C06E.heapOK_alloc wf cl hc ok, heapClosed_alloc cl hc⟩
+
+/-- old values keep their reification under `alloc`, in both directions -/
+theorem reify_alloc_iff {s : State} (cl : HeapClosed s) (c : Cell) {v : RVal}
+    (hb : RefBelow s.heap.size v) (w : Val) :
+    reify (s.alloc c).1 v = some w ↔ reify s v = some w := C06E.reify_alloc_iff cl c hb w
+
+/-- a new list cell (list literal, `list()`, list comprehension result, `sorted`, slices …) -/
+theorem heapOK_newList {s : State} (wf : HeapOK s) (cl : HeapClosed s) {xs : List RVal}
+    (hx : ∀ x ∈ xs, RefBelow s.heap.size x) :
+    ∃ s', newList xs s = .ok (.ref s.heap.size) s' ∧ s'.heap = s.heap.push (.list xs) ∧
+      HeapOK s' ∧ HeapClosed s' := newList_inv wf cl hx
+
+/-- `addSet` (set literal, `set(…)`, set comprehension result) on items of one ordered kind -/
+theorem heapOK_addSet {s : State} (wf : HeapOK s) (cl : HeapClosed s) {items : List RVal}
+    {I : List Val} (hI : items.mapM (reify s) = some I) (hk : ∀ a ∈ I, ∀ b ∈ I, SameKind a b) :
+    ∃ s', addSet items s = .ok (.ref s.heap.size) s' ∧ HeapOK s' ∧ HeapClosed s' ∧
+      reify s' (.ref s.heap.size) = some (mkSet decRepr I) := addSet_inv wf cl (mapM_forall2 hI) hk
+
+/-- the empty `set()` -/
+theorem heapOK_empty_set {s : State} (wf : HeapOK s) (cl : HeapClosed s) :
+    HeapOK (s.alloc (.set [])).1 ∧ HeapClosed (s.alloc (.set [])).1 :=
+  heapOK_alloc wf cl (by intro x hx; simp at hx)
+    (by intro vs hvs; simp at hvs; subst hvs; exact KeysOK.nil)
+
+/-- **the set literal keeps the invariant** (items of one ordered kind) -/
+theorem set_literal_heapOK (ld : Loader) {fuel : Nat} {env : EnvId} {items : List Node} {pos : Pos}
+    {s s1 : State} {vs : List RVal} (hi : evalSeq ld fuel env items s = .ok vs s1)
+    (wf : HeapOK s1) (cl : HeapClosed s1) {I : List Val} (hI : vs.mapM (reify s1) = some I)
+    (hk : ∀ a ∈ I, ∀ b ∈ I, SameKind a b) :
+    ∃ s', eval ld (fuel + 1) env (.set items pos) s = .ok (.ref s1.heap.size) s' ∧ HeapOK s' ∧
+      HeapClosed s' ∧ reify s' (.ref s1.heap.size) = some (mkSet decRepr I) := by
+  obtain ⟨s', h1, h2, h3, h4⟩ := heapOK_addSet wf cl hI hk
+  exact ⟨s', by rw [eval_set_lit ld hi, h1], h2, h3, h4⟩
+
+/-- **the map literal keeps the invariant** (keys of one ordered kind) -/
+theorem map_literal_heapOK (ld : Loader) {fuel : Nat} {env : EnvId} {keys values : List Node}
+    {pos : Pos} {s s1 : State} {kvs : List (RVal × RVal)}
+    (hi : evalPairs ld fuel env keys values s = .ok kvs s1) (wf : HeapOK s1) (cl : HeapClosed s1)
+    {I : List (Val × Val)} (hI : kvs.mapM (pairF (reify s1)) = some I)
+    (hk : ∀ a ∈ I.map (·.1), ∀ b ∈ I.map (·.1), SameKind a b) :
+    ∃ s', eval ld (fuel + 1) env (.map keys values pos) s = .ok (.ref s1.heap.size) s' ∧
+      HeapOK s' ∧ HeapClosed s' ∧ reify s' (.ref s1.heap.size) = some (mkMap decRepr I) := by
+  obtain ⟨h2, h3, h4⟩ := allocMap_inv wf cl (mapM_forall2 hI) hk
+  exact ⟨_, eval_map_lit ld hi, h2, h3, h4⟩
+
+/-- **comprehension results keep the invariant**: `comprResult` builds a list cell, a set cell
+    (`addSet`) or a map cell (`mapPut` fold) from the collected `(key, value)` pairs -/
+theorem comprResult_heapOK {s : State} (wf : HeapOK s) (cl : HeapClosed s) (kind : ComprKind)
+    {out : List (RVal × RVal)} {I : List (Val × Val)} (hI : out.mapM (pairF (reify s)) = some I)
+    (hk : match kind with
+      | .list => True
+      | .set => ∀ a ∈ I.map (·.2), ∀ b ∈ I.map (·.2), SameKind a b
+      | .map => ∀ a ∈ I.map (·.1), ∀ b ∈ I.map (·.1), SameKind a b) :
+    ∃ s', comprResult kind out s = .ok (.ref s.heap.size) s' ∧ HeapOK s' ∧ HeapClosed s' := by
+  have hM := mapM_forall2 hI
+  cases kind with
+  | list =>
+    obtain ⟨s', h1, _, h2, h3⟩ := newList_inv wf cl (xs := out.map (·.2))
+      (cellClosed_list_of_reifL (ReifM.vals hM))
+    exact ⟨s', h1, h2, h3⟩
+  | set =>
+    obtain ⟨s', h1, h2, h3, _⟩ := addSet_inv wf cl (ReifM.vals hM) hk
+    exact ⟨s', h1, h2, h3⟩
+  | map =>
+    obtain ⟨h2, h3, _⟩ := allocMap_inv wf cl hM hk
+    exact ⟨_, rfl, h2, h3⟩
 
 /-! ## 2. `equals` -/
 
@@ -541,13 +634,18 @@ theorem native_string_nonlist {s : State} {v : RVal} {va : Val} (hv : reify s v 
     runPure "string" [("obj", v)] s = some (.ok (.str (render va)) s) :=
   native_string hv h1 h2 h3 (rrender_eq_render_nonlist hv hl)
 
-/-- `string(v)`, all values; `_partial` for the reason given at `rrender_bridge_partial`
-    (fuel `heap.size` instead of `heap.size + 1` in the reification hypothesis) -/
+/-- **`string(v)`**, all values, at full strength (was `native_string_partial`) -/
+theorem native_string_eq {s : State} {v : RVal} {va : Val} (hv : reify s v = some va)
+    (h1 : ∀ t, v ≠ .str t) (h2 : v ≠ .null) (h3 : ∀ t, v ≠ .pat t) :
+    runPure "string" [("obj", v)] s = some (.ok (.str (render va)) s) :=
+  native_string hv h1 h2 h3 (rrender_bridge hv)
+
+/-- old name, old (weaker) statement; kept as an alias -/
 theorem native_string_partial {s : State} {v : RVal} {va : Val}
     (hv : reifyF decRepr s.heap s.heap.size v = some va)
     (h1 : ∀ t, v ≠ .str t) (h2 : v ≠ .null) (h3 : ∀ t, v ≠ .pat t) :
     runPure "string" [("obj", v)] s = some (.ok (.str (render va)) s) :=
-  native_string (reifyF_mono decRepr s.heap _ v va hv) h1 h2 h3 (rrender_eq_render hv)
+  native_string_eq (reifyF_mono decRepr s.heap _ v va hv) h1 h2 h3
 
 theorem forall2_mem_left {α β : Type} {R : α → β → Prop} {xs : List α} {ys : List β}
     (h : List.Forall₂ R xs ys) : ∀ x ∈ xs, ∃ y ∈ ys, R x y := by
@@ -765,6 +863,8 @@ example := string_set_perm sEx_ok (c := 1) (d := 11) rfl rfl
 example := native_string_nonlist (s := sEx) (v := .ref 5) rfl (by simp) (by simp) (by simp)
   (by intro a xs h; cases h; simp [sEx])
 example := native_string_partial (s := sEx) (v := .ref 3) rfl (by simp) (by simp) (by simp)
+example := native_string_eq (s := sEx) (v := .ref 3) rfl (by simp) (by simp) (by simp)
+example := rrender_bridge (s := sEx) (v := .ref 4) rfl
 #guard (rrender sEx (.ref 3)).map String.ofList == some "[<<1, 1.5>>, [1, 1.0]]"
 #guard (rrender sEx (.ref 5)).map String.ofList == some "<<<1 => 'a', 2.5 => <<1, 1.5>> >>>"
 #guard (rrender sEx (.ref 1)) == (rrender sEx (.ref 11))
@@ -799,5 +899,54 @@ example : rveq sSS (.ref 3) (.ref 4) = true := by decide
 #guard (do let a ← reify sSS (.ref 3); let b ← reify sSS (.ref 4); pure (veq a b)) == some false
 example : heapOKB sBad = false ∧ heapOKB sMix = false := by decide
 #guard heapOKB sSS == false
+
+/-! ### `HeapClosed` is needed for `heapOK_alloc` (witness), and holds on `sEx` -/
+
+def sDang : State := { heap := #[.set [.ref 1, .ref 1]] }
+
+example : heapOKB sDang = true ∧ heapOKB (sDang.alloc (.list [])).1 = false := by decide
+-- after the allocation cell 0 reifies with two equal elements: not `KeysOK`
+example : ¬ HeapOK (sDang.alloc (.list [])).1 := by
+  intro h
+  have := (h 0 (.set [.ref 1, .ref 1]) rfl [.list [], .list []] rfl).distinct
+  rw [List.pairwise_cons] at this
+  exact absurd (this.1 (.list []) (by simp)) (by decide)
+
+/-- executable check of `HeapClosed` -/
+def refBelowB (N : Nat) : RVal → Bool
+  | .ref a => decide (a < N)
+  | _ => true
+
+def cellClosedB (N : Nat) : Cell → Bool
+  | .list xs => xs.all (refBelowB N)
+  | .set xs => xs.all (refBelowB N)
+  | .map kvs => kvs.all (fun kv => refBelowB N kv.1 && refBelowB N kv.2)
+  | _ => true
+
+theorem refBelowB_sound {N : Nat} {v : RVal} (h : refBelowB N v = true) : RefBelow N v := by
+  cases v <;> simp_all [refBelowB, RefBelow]
+
+theorem heapClosedB_sound {s : State} (h : s.heap.toList.all (cellClosedB s.heap.size) = true) :
+    HeapClosed s := by
+  intro a c hc
+  have hm : c ∈ s.heap.toList := Array.mem_toList_iff.mpr (Array.mem_of_getElem? hc)
+  have hb := List.all_eq_true.mp h c hm
+  cases c <;> simp only [cellClosedB, List.all_eq_true, Bool.and_eq_true] at hb <;>
+    simp only [CellClosed]
+  · exact fun x hx => refBelowB_sound (hb x hx)
+  · exact fun x hx => refBelowB_sound (hb x hx)
+  · exact fun kv hkv => ⟨refBelowB_sound (hb kv hkv).1, refBelowB_sound (hb kv hkv).2⟩
+
+theorem sEx_closed : HeapClosed sEx := heapClosedB_sound (by decide)
+
+-- the allocation theorems instantiated on `sEx`
+example := heapOK_addSet sEx_ok sEx_closed (items := [.int 1, .dec 2 1, .dec 3 1]) rfl
+  (by intro a ha b hb; simp at ha hb; rcases ha with rfl | rfl | rfl <;>
+      rcases hb with rfl | rfl | rfl <;> simp [SameKind])
+example := heapOK_newList sEx_ok sEx_closed (xs := [.ref 1, .int 3])
+  (by intro x hx; simp at hx; rcases hx with rfl | rfl <;> simp [RefBelow, sEx])
+example := heapOK_empty_set sEx_ok sEx_closed
+example : reifyF decRepr sEx.heap sEx.heap.size (.ref 3) = reify sEx (.ref 3) :=
+  (reify_fuel_indep sEx (Nat.le_refl _) (Nat.le_succ _) _)
 
 end Ckl.C06Eval
